@@ -9,6 +9,7 @@
 //   pool reserr                              ResolverError
 //   pool scs sc=<id> st=IDLE|CONNECTING|READY|TF|SHUTDOWN
 //   pool factory fail=<n>                    the next n NewSubConn calls fail
+//   pool pickpre call=<id> ...               a pick (same arguments as pick) whose context has ended before Pick is called
 //   pool pick2 a=<id> b=<id> picker=<n>      two plain picks run concurrently while the harness stalls gb.mu
 //   pool doneswap call=<id> reply=<key>/ sc=<id>   a BIND call completes successfully and is stopped right before it takes
 //                                            the balancer lock to record its keys; the replacement connection <sc> is
@@ -588,6 +589,12 @@ func (h *vPool) exec(line string) string {
 		res = "ok"
 	case "pick":
 		res = h.doPick(a, false)
+	case "pickpre":
+		a["pre"] = "1"
+		res = h.doPick(a, false)
+		if res == "waiting" { // a pick whose context is over cannot be left waiting
+			res = "HANG"
+		}
 	case "pickhold":
 		res = h.doPick(a, true)
 	case "resume":
@@ -716,6 +723,9 @@ func (h *vPool) doPick(a map[string]string, hold bool) string {
 		vc.dl = &t
 	}
 	c.ctx = vc
+	if a["pre"] == "1" {
+		close(vc.doneCh) // the call's context is already over
+	}
 	var ctx context.Context = vc
 	req := mkReq(a["req"])
 	switch a["ctx"] {
@@ -1771,6 +1781,8 @@ func (g *vGen) pickLine() string {
 	kind := "pick"
 	if verifHookInstalled && len(h.held) < 2 && (r.Intn(12) == 0 || ((g.profile == "growth" || g.profile == "load") && r.Intn(4) == 0)) {
 		kind = "pickhold"
+	} else if r.Intn(25) == 0 || (g.rrOn && r.Intn(8) == 0) {
+		kind = "pickpre"
 	}
 	return fmt.Sprintf("pool %s call=%d picker=%d m=%s ctx=%s dl=%s req=%s", kind, g.nextCall, pn, m, ctx, dl, req)
 }
